@@ -353,6 +353,65 @@ fn run_generator_reuse(cx: &mut CaseCx, _case: &Value) {
   cx.outcome("generator reuse");
 }
 
+
+/// independent clients on SEPARATE freshly spawned threads (each with its own OS entropy stream)
+fn run_threads(cx: &mut CaseCx, case: &Value) {
+  let t = case["t"].as_u64().unwrap() as u32;
+  let m = b"threaded measurement".to_vec();
+  let e = b"e".to_vec();
+  let nthreads = 4usize;
+  let seed = cx.seed ^ cx.case_key;
+  let per_thread = 3usize;
+  let results: Vec<Vec<(Vec<u8>, Vec<u8>, [u8; 16])>> = std::thread::scope(|s| {
+    let hs: Vec<_> = (0..nthreads)
+      .map(|k| {
+        let (m, e) = (m.clone(), e.clone());
+        s.spawn(move || {
+          // each client thread has its own entropy stream, as independent machines would
+          getrandom::verif::reset(seed ^ (0x7EAD + k as u64 * 0x1_0001));
+          let mut out = vec![];
+          for _ in 0..per_thread {
+            let mg = MessageGenerator::new(SingleMeasurement::new(&m), t, &e);
+            if let Ok(w) = mg.share_with_local_randomness() {
+              out.push((w.share.to_bytes(), w.tag.to_vec(), w.key));
+            }
+          }
+          out
+        })
+      })
+      .collect();
+    hs.into_iter().map(|h| h.join().unwrap_or_default()).collect()
+  });
+  let all: Vec<&(Vec<u8>, Vec<u8>, [u8; 16])> = results.iter().flatten().collect();
+  cx.eval();
+  cx.nontrivial(fnv_str(&case.to_string()));
+  if all.len() != nthreads * per_thread {
+    cx.viol("C04/share-failed", "a client thread failed to produce its shares", json!({"t": t}));
+    return;
+  }
+  let xs: Vec<BigUint> = all.iter().filter_map(|a| share_x(&a.0)).collect();
+  let mut sx = xs.clone();
+  sx.sort();
+  sx.dedup();
+  if sx.len() != xs.len() {
+    let dup = (0..xs.len()).find(|&i| xs[..i].contains(&xs[i])).unwrap();
+    cx.viol("C04/share-points-not-distinct", format!("clients on different threads (independent entropy) produced the same evaluation point: share #{} (thread {}, call {}) equals an earlier one", dup, dup / per_thread, dup % per_thread), json!({"t": t, "threads": nthreads, "calls_per_thread": per_thread}));
+  }
+  if all.iter().any(|a| a.1 != all[0].1 || a.2 != all[0].2) {
+    cx.viol("C04/tag-not-deterministic", "clients on different threads disagree on tag or key", json!({"t": t}));
+  }
+  // combinable across threads: one share from each of t different threads (round robin)
+  if (t as usize) <= nthreads && t >= 1 {
+    let shares: Vec<sta_rs::Share> = (0..t as usize).filter_map(|k| sta_rs::Share::from_bytes(&results[k][k % per_thread].0)).collect();
+    cx.eval();
+    match recover_msg(&shares) {
+      Ok(Ok(_)) => cx.count("cross_thread_combinable", 1),
+      other => cx.viol("C04/not-combinable", format!("t shares from clients on {} different threads do not combine: {:?}", t, other.map(|r| r.map(|_| ()))), json!({"t": t})),
+    }
+  }
+  cx.outcome("threads");
+}
+
 pub fn spec() -> PropSpec {
   PropSpec {
     id: "C04",
@@ -393,6 +452,13 @@ pub fn spec() -> PropSpec {
         },
         run: run_clients,
         min_counts: &[("combinable_subsets", 50)],
+      },
+      Check {
+        name: "client-threads",
+        rule: "4 freshly spawned threads (own entropy stream each) x 3 clients per thread on one triple: all 12 evaluation points pairwise distinct, tags and keys equal, one share from each of t threads combine (a per-thread or per-process point generator that replays one sequence)",
+        gen: |_| (1..=4u64).map(|t| json!({"t": t})).collect(),
+        run: run_threads,
+        min_counts: &[("cross_thread_combinable", 4)],
       },
       Check {
         name: "generator-reuse",
